@@ -59,6 +59,8 @@ func main() {
 		os.Exit(mc.RunReplay(&r))
 	case "kworker":
 		mc.KWorkerMain(os.Args[2], os.Args[3])
+	case "genesisrt":
+		os.Exit(mc.RunGenesisRT(os.Args[2], os.Args[3], os.Args[4:]))
 	case "trace":
 		os.Exit(mc.RunTrace(os.Args[2], os.Args[3], os.Args[4:]))
 	default:
